@@ -621,6 +621,8 @@ def run(ctx, tier):
     results += freelist_is_set(ctx)
     results += parent_links_refreshed(ctx)
     results += separator_refreshed(ctx)
+    import c08
+    results += c08.key_order(ctx, rule='C05.key-order')
     results += c02.reload_rule(ctx, rule='C05.reload')
     import c16
     results += c16.grow(ctx, rule='C05.grow')
